@@ -173,7 +173,9 @@ func (r *tmRunner) dur(d time.Duration) int64 {
 	return int64(d / r.unit)
 }
 
-func (r *tmRunner) root(id int64) []byte { return tmhash.Sum([]byte(fmt.Sprintf("verif-tm-root-%d", id))) }
+func (r *tmRunner) root(id int64) []byte {
+	return tmhash.Sum([]byte(fmt.Sprintf("verif-tm-root-%d", id)))
+}
 
 func (r *tmRunner) chainID(rev int64) string { return fmt.Sprintf("%s-%d", tmChainBase, rev) }
 
